@@ -33,6 +33,12 @@ declarations:
     - decl: int turn()
   - decl: int count(int n)
   - decl: enum Fill { SOLID = 3, DASHED }
+- decl: namespace extras
+  options:
+    F_flatten_namespace: true
+  declarations:
+  - decl: enum Mark { DOT, DASH }
+  - decl: int weight(int n)
 - decl: const std::string getLabel()
   doxygen:
     brief: |-
